@@ -191,6 +191,9 @@ def run_case(ctx, case):
         if base is None:
             base = (osec, ov, unit, tz)
             judge(ctx, case, stamps, vals, P, maxgap, rainfall, osec, ov)
+            if len(stamps) <= 60:
+                ctx.reuse("var2h", lambda: call(se, P, maxgap, rainfall).values, [],
+                          out.values.copy(), case)
         else:
             same = len(osec) == len(base[0]) and np.array_equal(osec, base[0]) and \
                 bool(np.all((ov == base[1]) | (np.isnan(ov) & np.isnan(base[1]))))
